@@ -88,6 +88,26 @@ def check_ctor(kind, s):
     return None
 
 
+def check_registry(s):
+    """X -> X given with either spelling of the frame returns its argument; a registered entry is found under either spelling"""
+    from perception_eval.common.schema import FrameID
+    from perception_eval.common.transform import HomogeneousMatrix, TransformDict
+    exp = [m for m in FrameID if m.value == s]
+    if not exp:
+        return None
+    m = exp[0]
+    reg = TransformDict(HomogeneousMatrix((1.0, 2.0, 3.0), (1.0, 0.0, 0.0, 0.0), FrameID.BASE_LINK, FrameID.MAP))
+    p = (4.0, 5.0, 6.0)
+    for key in ((s, m), (m, s), ("".join([s]), "".join([c for c in s])), (s.upper(), m)):
+        try:
+            got = reg.transform(key, p)
+        except Exception as ex:
+            return f"TransformDict.transform({key!r}, p) raised {type(ex).__name__}: {ex} although source and destination are the same frame"
+        if tuple(got) != p:
+            return f"TransformDict.transform({key!r}, p) changed p"
+    return None
+
+
 def candidates(fname, item, seed):
     rnd = random.Random(seed)
     out = [s for _, s in model_strings(item.get("model"))]
@@ -117,6 +137,14 @@ def search(item, seed):
             if why:
                 return dict(function=fname, input=s, observed=why)
         return None
+    if fname.startswith("TransformDict.transform") or item["name"] == "bounded-native-search":
+        from perception_eval.common.schema import FrameID
+        for m in FrameID:
+            why = check_registry(m.value)
+            if why:
+                return dict(function="TransformDict.transform", input=m.value, observed=why)
+        if fname.startswith("TransformDict.transform"):
+            return None
     if fname not in parsers():
         return None
     for s in candidates(fname, item, seed):
@@ -128,6 +156,9 @@ def search(item, seed):
 
 def replay(payload):
     f, s = payload["function"], payload["input"]
+    if f == "TransformDict.transform":
+        why = check_registry(s)
+        return (why is None, why or "ok")
     why = check(f, s) if f in parsers() else check_ctor("Shape.__init__" if f.startswith("Shape") else "HomogeneousMatrix" if f.startswith("Homog") else "TransformKey", s)
     return (why is None, why or "ok")
 
